@@ -108,8 +108,11 @@ Accepts(mods, table, keys, result) == SeqToSet(result) \in Allowed(mods, table, 
 (*     the 2-tick grace) and, with roa = 1, without the output of an         *)
 (*     activated override (O4 without waiting for the 2nd quiet tick).       *)
 (* Remapped keys: p.map (optional) = Seq([c, k]): physical key c is written  *)
-(* as the plain key k in the layer (injective); H, may, must hold the key    *)
-(* codes kanata is about to hold down, not the physical ones.                *)
+(* as the plain key k in the layer; H, may, must hold the key codes kanata   *)
+(* is about to hold down, not the physical ones.  Two physical keys may be   *)
+(* written as the same MODIFIER (both shift keys -> lsft): the key list then *)
+(* holds the code twice and the override replaces all copies (Allowed works  *)
+(* on the set of held codes).  Non-modifier keys are mapped injectively.     *)
 (* OS repeat events ("r" inputs; a repeat written to the OS shows as         *)
 (* ["d", code] in the out list of the "r" line):                             *)
 (*  R1 a repeat event makes kanata write at most one event, a repeat; when   *)
@@ -127,7 +130,7 @@ Accepts(mods, table, keys, result) == SeqToSet(result) \in Allowed(mods, table, 
 (*     override of k, whichever the OS sees down.  Which of several such     *)
 (*     keys that are down for different reasons repeats is C14's question.   *)
 (***************************************************************************)
-MonInit(p) == [p |-> p, pending |-> <<>>, H |-> <<>>, may |-> {}, must |-> {}, down |-> {},
+MonInit(p) == [p |-> p, pending |-> <<>>, H |-> <<>>, HP |-> <<>>, may |-> {}, must |-> {}, down |-> {},
                bad |-> 0, quiet |-> 3, sh |-> TRUE, fin |-> TRUE, err |-> ""]
 
 PMods(m) == SeqToSet(m.p.mods)
@@ -158,7 +161,7 @@ MonRepeat(m, r) ==
 
 MonIn(m, r) ==
   IF m.err # "" THEN m
-  ELSE IF r.e \in {"d", "u"} THEN [m EXCEPT !.pending = Append(@, [p |-> r.e = "d", c |-> PKeyOf(m, r.c)])]
+  ELSE IF r.e \in {"d", "u"} THEN [m EXCEPT !.pending = Append(@, [p |-> r.e = "d", c |-> PKeyOf(m, r.c), ph |-> r.c])]
   ELSE IF r.e = "r" THEN MonRepeat(m, r)
   ELSE Fail(m, "C13: input kind outside the instance")
 
@@ -170,10 +173,19 @@ MonTick(m, out, idle, cb) ==
     LET mods == PMods(m)
         tab == m.p.table
         hasEv == m.pending # <<>>
-        ev == IF hasEv THEN Head(m.pending) ELSE [p |-> FALSE, c |-> 0]
+        ev == IF hasEv THEN Head(m.pending) ELSE [p |-> FALSE, c |-> 0, ph |-> 0]
+        \* H / HP run in parallel: key code and physical key of every held key.  Two physical keys may be written as the
+        \* same (modifier) key: H then holds the code twice, and the release of one physical key removes its own copy
+        phIdx == {i \in DOMAIN m.HP : m.HP[i] = ev.ph}
+        keep == {i \in DOMAIN m.HP : i \notin phIdx}
+        Sub(sq) == LET f[i \in 0..Len(sq)] == IF i = 0 THEN <<>> ELSE IF i \in keep THEN Append(f[i - 1], sq[i]) ELSE f[i - 1]
+                   IN f[Len(sq)]
         H1 == IF ~hasEv THEN m.H
-              ELSE IF ev.p THEN (IF InSeq(m.H, ev.c) THEN m.H ELSE Append(m.H, ev.c))
-              ELSE DropKeys(m.H, {ev.c})
+              ELSE IF ev.p THEN (IF phIdx # {} THEN m.H ELSE Append(m.H, ev.c))
+              ELSE Sub(m.H)
+        HP1 == IF ~hasEv THEN m.HP
+               ELSE IF ev.p THEN (IF phIdx # {} THEN m.HP ELSE Append(m.HP, ev.ph))
+               ELSE Sub(m.HP)
         held == SeqToSet(H1)
         may0 == m.may \cap held
         must0 == m.must \cap held
@@ -194,7 +206,7 @@ MonTick(m, out, idle, cb) ==
         fin == IF m.p.roa = 1
                THEN UNION {Allowed(mods, tab, DropKeys(H1, X)) : X \in {Y \in SUBSET may1 : must1 \subseteq Y}}
                ELSE AccSets(m, H1, may0)
-        m1 == [m EXCEPT !.pending = IF hasEv THEN Tail(@) ELSE @, !.H = H1, !.may = may1, !.must = must1,
+        m1 == [m EXCEPT !.pending = IF hasEv THEN Tail(@) ELSE @, !.H = H1, !.HP = HP1, !.may = may1, !.must = must1,
                         !.down = D1, !.bad = bad1, !.quiet = quiet1, !.sh = sh1, !.fin = D1 \in fin]
     IN IF sharpTick /\ D1 \notin Allowed(mods, tab, H1)
        THEN Fail(m1, "C13 O1: OS key set differs from the override function of the held keys")
